@@ -1412,7 +1412,7 @@ pub fn repo_pars(limit_bytes: u64) -> Vec<String> {
     sized.sort();
     sized
         .into_iter()
-        .filter(|(n, p)| *n <= limit_bytes && !p.to_string_lossy().contains("_expanded") && !p.to_string_lossy().contains("-exp."))
+        .filter(|(n, _)| *n <= limit_bytes)
         .filter_map(|(_, p)| std::fs::read_to_string(p).ok())
         .collect()
 }
@@ -1426,18 +1426,31 @@ pub const FIXED: &[&str] = &[
     "%start S\n%on Tk %enter M\n%scanner M { %auto_newline_off %on Tk %enter INITIAL %skip Sk }\n%%\nS: 'x' Tk <M>\"x\" Tk Sk;\nTk: <INITIAL, M>/x/ ?= 'y';\nSk: <M>'-';\n",
     "%start S\n%grammar_type 'LALR(1)'\n%skip Sk\n%on P %push M\n%scanner M { %on Q %pop }\n%%\nS: P 'if' Q \"if\" Sk;\nP: '(';\nQ: <M>')';\nSk: '-';\n",
     "%start S\n%%\nS: \"a\" \"q\" X | \"y\" | \"a\" \"z\" 'a';\nX: 'x';\n",
-    // left factoring changes the first-occurrence order of the terminals (a x b z -> a b z x): finding F26
-    "%start S\n%skip Sk\n%%\nS: \"a\" { \"x\" } \"b\" | \"a\" \"z\";\nSk: \"z\";\n",
-    "%start S\n%on Sk %enter M\n%scanner M { %on Sk %enter INITIAL }\n%%\nS: \"a\" { \"x\" } \"b\" | \"a\" \"z\" <M>'y' Sk;\nSk: <INITIAL, M>\"z\";\n",
 ];
+
+/// `corpus/C18_grammars.txt`: minimised grammars of past findings, one per line as `<%HH-escaped PAR text> <k>`
+/// (`#` comments). The case lines embed descriptions of the CURRENT tree, so the corpus holds grammars,
+/// not case lines; they are run first by C18 and C21.
+pub fn corpus_grammars() -> Vec<(String, usize)> {
+    let p = std::path::Path::new(env!("CARGO_MANIFEST_DIR")).join("../corpus/C18_grammars.txt");
+    let Ok(text) = std::fs::read_to_string(p) else { return vec![] };
+    text.lines()
+        .filter(|l| !l.trim().is_empty() && !l.starts_with('#'))
+        .filter_map(|l| {
+            let w: Vec<&str> = l.split_whitespace().collect();
+            Some((dec(w.first()?)?, w.get(1).and_then(|k| k.parse().ok()).unwrap_or(3)))
+        })
+        .collect()
+}
 
 pub fn par_cases(seed: u64, thorough: bool) -> Vec<(String, usize)> {
     let mut rng = Rng::new(seed ^ 0xC21);
-    let mut out: Vec<(String, usize)> = FIXED.iter().map(|s| (s.to_string(), 3)).collect();
+    let mut out = corpus_grammars();
+    out.extend(FIXED.iter().map(|s| (s.to_string(), 3)));
     for p in repo_pars(if thorough { 2_000_000 } else { 20_000 }) {
-        out.push((p, if thorough { 5 } else { 3 }));
+        out.push((p, 5));
     }
-    let n = if thorough { 20000 } else { 2000 };
+    let n = if thorough { 60000 } else { 2000 };
     for _ in 0..n {
         out.push((random_par(&mut rng), rng.range(1, 3)));
     }
@@ -1496,6 +1509,24 @@ pub fn cli(args: &[String]) {
             match make_case(&par, k) {
                 Some(c) => println!("@@ {c}"),
                 None => println!("@@ rejected"),
+            }
+        }
+        // `pair <file.par> <k> <parser.rs>`: case line whose third description is decoded from a parser
+        // file on disk (rustfmt-formatted, checked in) instead of a fresh generation
+        Some("pair") => {
+            let par = std::fs::read_to_string(&args[1]).expect("read par");
+            let k = args.get(2).and_then(|s| s.parse().ok()).unwrap_or(3);
+            let src = std::fs::read_to_string(&args[3]).expect("read parser");
+            match pipeline(&par, k) {
+                Ok(p) => println!(
+                    "@@ d3 {} {} {} {} {}",
+                    enc(&par),
+                    k,
+                    enc_desc(&desc_analysis(&p)),
+                    enc_desc(&desc_export(&p)),
+                    enc_desc(&desc_of_source(&src))
+                ),
+                Err(e) => println!("@@ rejected {e}"),
             }
         }
         // `src <file.par> <k>`: the generated parser text
